@@ -112,7 +112,13 @@ class TlcResult:
                 try:
                     res.append(parse_tla_tuple(buf))
                 except Exception:
-                    res.append([tag, buf])
+                    # unparsable pretty-print (exotic characters): keep the leading scalars, give the rest as text
+                    m = re.match(r'^<<\s*"%s",\s*(\d+),\s*"([^"]*)",\s*"([^"]*)",\s*(.*)>>\s*$' % re.escape(tag), buf, re.S)
+                    if m:
+                        res.append([tag, int(m.group(1)), m.group(2), m.group(3), m.group(4)])
+                    else:
+                        m = re.match(r'^<<\s*"%s",\s*(\d+)' % re.escape(tag), buf)
+                        res.append([tag, int(m.group(1)) if m else 0, "?", "?", buf])
             i += 1
         return res
 
